@@ -96,11 +96,21 @@ Definition mask_row (g : group) (mask : Z) : list Z :=
    Row per subset (the traits listed in REVERSE input order), in the encoding of harness/gen (grp, id 204):
    [mask; enabled by fill_table; number of enable calls; the same two for the Fwd filler; traits bound in the where clause; foreign enable calls] *)
 Definition impl_enabled (listed : list tinfo) : list tinfo := sort_ti listed.
-Definition impl_row (g : group) (mask : Z) : list Z :=
+(* the forward list (fourth argument) is INDEPENDENT of the owned list.  Forward mode of a case: 0 the same list; 1 no forward list (three-argument
+   form: no Fwd filler is generated, the harness prints -1 -1); 2 the complement of the owned list; 3 the owned list rotated by one position *)
+Definition fwd_mask (nopt : nat) (fm mask : Z) : Z :=
+  if fm =? 2 then (2 ^ nz nopt - 1) - mask
+  else if fm =? 3 then (match nopt with O => 0 | S k => mask / 2 + (mask mod 2) * 2 ^ nz k end)
+  else mask.
+Definition impl_row (g : group) (fm mask : Z) : list Z :=
   let nm := length (g_mand g) in
   let listed := rev (filter (in_mask nm mask) (g_opt g)) in
   let en := impl_enabled listed in
-  [mask; mask_of nm en; nz (length en); mask_of nm en; nz (length en); mask_of nm en; 0].
+  if fm =? 1 then [mask; mask_of nm en; nz (length en); -1; -1; mask_of nm en; 0]
+  else
+    let flisted := rev (filter (in_mask nm (fwd_mask (length (g_opt g)) fm mask)) (g_opt g)) in
+    let fen := impl_enabled flisted in
+    [mask; mask_of nm en; nz (length en); mask_of nm fen; nz (length fen); mask_of nm en; 0].
 
 (* an aliased instantiation of a generic trait is written `Get<u8>=GetU8`; the alias is the trait's identity (TraitInfo::name_ident) *)
 Fixpoint alias_of (n : ident) : ident :=
@@ -131,6 +141,7 @@ Definition run_group_impl (params : list Z) (rows : list (list Z)) : list (list 
       let all := combine (seq 0 (length rows)) rows in
       let tis := map (fun p : nat * list Z => mkti (fst p) (alias_of (snd p))) all in
       let g := mkg (firstn nmand tis) (skipn nmand tis) in
-      map (fun m => impl_row g (nz m)) (seq 0 (Nat.pow 2 (length (g_opt g))))
+      let fm := match params with _ :: f :: _ => f | _ => 0 end in
+      map (fun m => impl_row g fm (nz m)) (seq 0 (Nat.pow 2 (length (g_opt g))))
   | _ => [[-2]]
   end.
